@@ -45,7 +45,7 @@ theorem pre_drop {k : LK} {t x : Tree} (h : pre k t x = .drop) : dropShape x.it 
         · rename_i hc
           simp only [Bool.and_eq_true] at hc
           simp [dropShape, hc.1.1, hc.1.2]
-        · cases h
+        · split at h <;> cases h
   · split at h <;> cases h
   · split at h
     · rename_i he
